@@ -21,6 +21,12 @@ CLAIMED = {
             "steps (symbolic 64-bit division equivalence is out of reach). Date/time/map-set/proplist clauses are not decided (see DESIGN).",
             "kani+cbmc bounded model checking against a 128-bit reference"),
 }
+CLAIMED["C16"] = ("E2 mir-smt", "4 C16",
+    "Bounded model checking over interleavings: the MIR of PidAllocator::allocate and Node::make_reference (regenerated from the working "
+    "tree) is executed symbolically into a visible-action tree (lock, guard drop and every atomic access are steps); z3 decides, for a "
+    "symbolic start state and a symbolic schedule of 2 threads (3 threads / 2x2 calls thorough), that no MIR overflow assert fires and no "
+    "two results collide; plus an inductive step and an injectivity window of 2^52 ranks for sequential histories.",
+    "MIR->SMT symbolic execution + z3 BMC over symbolic schedules; counterexample schedules replayed natively through yield-point hooks")
 NA = {
     "C07": "frame assembly is inline in async fns writing to a concrete tokio OwnedWriteHalf; no seam a symbolic executor can observe; "
            "atomicity under concurrent senders is tokio-Mutex scheduling (Kani has no concurrency, no sockets)",
